@@ -34,7 +34,8 @@ def run(chk):
     # ... and of the read cursor of the reader handed to LoadAr (sniff: the caller read the magic first; drain: it read
     # everything, e.g. to hash the file): LoadAr takes an io.ReaderAt
     # ... (eagereof: an io.ReaderAt that reports io.EOF together with the last bytes of its source, which the contract allows)
-    for mode in (b"skip", b"one", b"sniff", b"drain", b"eagereof"):
+    # (bigsection: an io.SectionReader whose Size() is far larger than the bytes behind it)
+    for mode in (b"skip", b"one", b"sniff", b"drain", b"eagereof", b"bigsection"):
         lc = [("ariterlazy", [cases[k][1][0], mode]) for k in sub]
         li = chk.run_impl(lc)
         chk.record("lazy-consumer-" + mode.decode(), lc, li, lambda c, r: r.startswith("[ "))
